@@ -173,3 +173,43 @@ fn c13_flags() {
     kani::cover!(m.data_overrun == 1, "data overrun");
     kani::cover!(m.busy_transitions == 1 && m.flushed_incomplete == 0, "busy transition only");
 }
+
+//@ harness: c20_chip_count props=C20,C13 tier=quick class=functional covers=3 mem=10 timeout=900 est=60
+//@ bounds: lane with 0..=2 decoded chips x barrel {inner, middle, outer} x configured outer-barrel chip count None|Some(any u8): check_chip_count is Err iff (inner and chips != 1) or (middle/outer and a count is configured and chips != count)
+#[kani::proof]
+#[kani::unwind(4)]
+#[kani::stub(alloc::fmt::format, crate::vsup::stub_format)]
+#[kani::stub(core::fmt::write, crate::vsup::stub_write)]
+fn c20_chip_count() {
+    let which: u8 = kani::any();
+    kani::assume(which <= 2);
+    let layer = match which {
+        0 => Layer::Inner,
+        1 => Layer::Middle,
+        _ => Layer::Outer,
+    };
+    let cfg: Option<u8> = kani::any();
+    let mut a = LaneAlpideFrameAnalyzer::new(layer, None, cfg);
+    let n: usize = kani::any();
+    kani::assume(n <= 2);
+    if n >= 1 {
+        a.chip_data.push(AlpideFrameChipData { chip_id: 3, bunch_counter: Some(7) });
+    }
+    if n >= 2 {
+        a.chip_data.push(AlpideFrameChipData { chip_id: 4, bunch_counter: Some(7) });
+    }
+    let r = a.check_chip_count();
+    let expect_err = match which {
+        0 => n != 1,
+        _ => match cfg {
+            Some(c) => n != c as usize,
+            None => false,
+        },
+    };
+    assert!(r.is_err() == expect_err, "chip count verdict differs (inner: exactly 1; middle/outer: the configured count)");
+    kani::cover!(which == 1 && expect_err, "middle layer, wrong configured count");
+    kani::cover!(which == 2 && cfg.is_some() && !expect_err, "outer layer, matching count");
+    kani::cover!(which == 0 && expect_err, "inner lane without exactly one chip");
+    core::mem::forget(r);
+    core::mem::forget(a);
+}
